@@ -1655,6 +1655,7 @@ def run_tiled(ctx, c, reqs, pending):
         else:
             margs = model_args(dict(c, rows=tr, cols=tc, planes=len(grid), src_order=list(range(len(grid))), spacing=-1.0), np.array(keep))
             margs['order'] = order
+            margs['coords'] = [[str(r0 + 1), str(c0 + 1), _rat(-0.5 * r0), _rat(-0.5 * c0), '0'] for (r0, c0) in grid]
             fn = 'build'
         reqs.append((fn, dict(margs, keys=[[(-1 if s is None else s), k] for s, k in keys])))
         pending.append((desc, 'build', {'nframes': nf, 'bits': int(d2.BitsAllocated), 'overlap': str(d2.SegmentsOverlap),
@@ -1664,7 +1665,7 @@ def run_tiled(ctx, c, reqs, pending):
                                         # slide-coordinate DimensionIndexValues (model: `frameDimsSlide`)
                                         'dims': ({f'{-1 if s is None else s},{k}': _div(it) for (s, k), it in
                                                   zip(keys, d2.PerFrameFunctionalGroupsSequence)}
-                                                 if (c['mode'] == 'tpm' and not full_org and len(keys) == nf) else None),
+                                                 if (not full_org and len(keys) == nf) else None),
                                         'frames': {f'{-1 if s is None else s},{k}': px[i].astype(np.int64).reshape(-1).tolist()
                                                    for i, (s, k) in enumerate(keys)}}))
         tpm_got = None
